@@ -133,18 +133,21 @@ fn gen_history(ctx: &mut Ctx, g: &[Ent], steps: u64) -> Vec<Op> {
                     Some(pos) => {
                         ctx.count("history:build_overlapping_other_calls");
                         ops.push(Op::Finish);
-                        snap = pos;
+                        // a late build does not replace a newer stored snapshot
+                        if has_snap && snap > pos { ctx.count("history:stale_build_skipped"); } else { snap = pos; }
                         has_snap = true;
                     }
                 }
             }
             8 => {
                 // install a snapshot from the leader, usually ahead of the applied position
-                // (never while an own build is in flight)
-                if g.is_empty() || building.is_some() { continue; }
+                // (openraft installs only snapshots ahead of the committed position, hence not older than
+                // a snapshot this node is building at that moment)
+                if g.is_empty() { continue; }
                 let lo = applied.map_or(first, |a| a);
                 let o = if ctx.rng.chance(1, 8) { first + ctx.rng.below(glast - first + 1) } else { lo + ctx.rng.below(glast.saturating_sub(lo) + 1) };
-                let o = o.min(glast).max(first);
+                let mut o = o.min(glast).max(first);
+                if let Some(Some(b)) = building { o = o.max(b); ctx.count("history:install_during_build"); }
                 ops.push(Op::Install(Some(o)));
                 applied = Some(o);
                 snap = Some(o);
